@@ -235,6 +235,24 @@ func (x *Exec) wfConcatRule(s *State, a, o, n, c, oc, nc, b, o2 *Term) {
 	x.eng.usedWf = true
 }
 
+// concatenation with a suffix: (a,o,n) ++ (c,oc,nc)[lo:] = (b,o2,n+cnt) where lo is a record boundary of the
+// well-formed (c,oc,nc), the suffix runs to its end, and the junction keeps "first record is a MoveTo" and
+// "the record after a Close is a MoveTo"
+func (x *Exec) wfConcatSuffixRule(s *State, a, o, n, c, oc, nc, lo, cnt, b, o2 *Term) {
+	x.unfoldBnd(s, c, oc, nc, lo)
+	first := Select(c, Arith("+", oc, lo))
+	junction := Or(Eq(cnt, IntLit(0)), And(
+		Implies(Eq(n, IntLit(0)), Eq(first, RealLitF(1))),
+		Implies(And(Cmp(">", n, IntLit(0)), Eq(Select(a, Arith("-", Arith("+", o, n), IntLit(1))), RealLitF(32))), Eq(first, RealLitF(1)))))
+	cond := And(wfpT(a, o, n), wfpT(c, oc, nc), bndT(c, oc, nc, lo), Eq(Arith("+", lo, cnt), nc), junction)
+	m := Arith("+", n, cnt)
+	concl := And(wfpT(b, o2, m), bndEquiv(x, b, o2, m, func(i *Term) *Term {
+		return Or(And(Cmp("<=", i, n), bndT(a, o, n, i)), And(Cmp(">=", i, n), bndT(c, oc, nc, Arith("+", lo, Arith("-", i, n)))))
+	}))
+	s.assume(Implies(cond, concl))
+	x.eng.usedWf = true
+}
+
 // sub-sequence a[o+lo : o+hi] of (a,o,n)
 func (x *Exec) wfSliceRule(s *State, a, o, n, lo, hi *Term) {
 	cond := And(wfpT(a, o, n), bndT(a, o, n, lo), bndT(a, o, n, hi), Cmp("<=", lo, hi),
